@@ -499,12 +499,12 @@ pub struct C07;
 /// One commit in five of a generated history becomes `git commit --amend`: HEAD's previous commit - which may be the
 /// checkpoint's - stops being an ancestor of HEAD (rewritten history: amend, rebase, squash). Trees, and with them
 /// every expected change set, are what they would be after a plain commit. Own generator over the finished list.
-/// One plain edit in six keeps the file's size and modification time (own generator over the finished list).
+/// One plain edit in twelve keeps the file's size and modification time (own generator over the finished list).
 pub fn same_stat_some(ops: &mut [GitOp], seed: u64, tag: &str, idx: usize) {
     let mut rng = Rng::new(scenario_seed(seed, tag, idx));
     for op in ops.iter_mut() {
         if let GitOp::Edit { path } = op {
-            if rng.chance(1, 6) && !path.ends_with("dirlink") {
+            if rng.chance(1, 12) && !path.ends_with("dirlink") {
                 *op = GitOp::EditSameStat { path: path.clone() };
             }
         }
